@@ -442,7 +442,6 @@ func init() {
 var c14Fns = map[string]bool{"suci": true, "nai": true, "guti2s": true, "guti2n": true, "pei": true, "amf2n": true,
 	"reqnssai": true, "snssai2m": true, "ladn2m": true, "uesec": true, "psi": true, "upuack": true, "dnn": true, "mi": true}
 
-
 func oracleC14(op string, a []string) string {
 	switch op {
 	case "conv":
@@ -724,6 +723,54 @@ func genConv14(g *Gen, w *bufio.Writer) {
 		}
 		for k := 0; k < 3; k++ {
 			emitRaw(w, g.mutate(b))
+		}
+	}
+	// identities: a valid header (type octet / PLMN / routing indicator / scheme / key id) followed by every short tail over an
+	// alphabet of digit-pair extremes (00, ff = two fillers, f0/0f = one filler, f1/1f) and by uniform fillings of longer tails:
+	// the BCD / filler handling is where these helpers branch
+	alphabet := []byte{0x00, 0xff, 0xf0, 0x0f, 0xf1, 0x1f}
+	var tails [][]byte
+	tails = append(tails, nil)
+	for _, a := range alphabet {
+		tails = append(tails, []byte{a})
+		for _, b := range alphabet {
+			tails = append(tails, []byte{a, b})
+			for _, c := range alphabet {
+				tails = append(tails, []byte{a, b, c})
+			}
+		}
+		for l := 4; l <= 9; l++ {
+			tails = append(tails, bytes.Repeat([]byte{a}, l))
+		}
+	}
+	for kind := 0; kind < 4; kind++ {
+		var v []byte
+		switch kind {
+		case 0:
+			v = g.validSuci()
+		case 1:
+			v = g.validGutiWire()
+		case 2:
+			v = g.validPei()
+		case 3:
+			v = g.validStmsi()
+		}
+		for _, h := range []int{1, 4, 7, 8} {
+			if h > len(v) {
+				continue
+			}
+			for _, sch := range []int{-1, 0, 1} {
+				hd := append([]byte{}, v[:h]...)
+				if sch >= 0 {
+					if kind != 0 || h < 7 {
+						continue
+					}
+					hd[6] = byte(sch) // SUCI protection scheme: null / profile A
+				}
+				for _, t := range tails {
+					emitRaw(w, append(append([]byte{}, hd...), t...))
+				}
+			}
 		}
 	}
 	// NSSAI: every length octet value at the head and after one valid entry; declared Len different from the contents
